@@ -56,6 +56,7 @@ func newC17Fix() *c17Fix {
 	f.claims = append(f.claims, must(psatoken.DecodeClaimsFromCBOR(f.cborP1)))
 	inv := *cl[0]
 	inv.ImplID = bp(pat(31, 1))
+	inv.Lifecycle = u16p(0x0100) // an invalid lifecycle value next to the valid ones of the other fixtures
 	f.claims = append(f.claims, must(realise(&inv)))
 	ext := *cl[3]
 	ext.Canon, ext.Profile = ExtP2Name, sp(ExtP2Name)
@@ -319,6 +320,16 @@ func c17RunScenario(r *evid.Run, st *Stats, ops []c17Op, sc c17Scenario, bound i
 		if now := deephash.Take(psatoken.VerifRegistrySave(), snapOpts).Canon; now != regSnap {
 			report("C17:register-changed", "the profile register was modified", x)
 			regSnap = now
+		}
+		// what the interleaving left behind in package-level state: the same calls made once more, one after the
+		// other, still return what they return sequentially
+		for i, oi := range sc.ops {
+			var again string
+			if p, v := safely(func() { again = ops[oi].run(fx) }); p {
+				report("C17:later-call-panics:"+ops[oi].name, fmt.Sprintf("after this interleaving a sequential %s panics: %v", ops[oi].name, v), x)
+			} else if again != base[i] {
+				report("C17:later-call-differs:"+ops[oi].name, fmt.Sprintf("after this interleaving a sequential %s returns %q, a process that only ever ran sequentially %q", ops[oi].name, clipS(again), clipS(base[i])), x)
+			}
 		}
 		return "ok"
 	}
